@@ -75,4 +75,71 @@ theorem append_after_torn_tail_unreadable_counterexample :
     rw [hr, garbage_tail cfgT .file _ _ hmax hv, tail]
     simp
 
+/-- **append_after_short_fragment_unreadable_old_rule** (F38, regression). The log holds one record
+and the first 2 bytes of a second one (a write torn inside the checksum field).
+OLD rule (`decodeAllOld`: the group reader's `(2, io.EOF)` taken for the end of the log): the
+restart reads a clean end — no repair —, the next life appends a complete `#ENDHEIGHT` record behind
+the two stray bytes, and from then on every reader (old or new rule) returns the first record and
+reports corruption: the appended record is never returned, and the repair of a LATER restart cuts it
+off. NEW rule: the fragment is reported corrupt, `repairWalFile` cuts it off, and what is appended
+is read back. -/
+theorem append_after_short_fragment_unreadable_old_rule :
+    decodeAllOld cfgT .group (frames cfgT [[1, 2, 3]] ++ (frame cfgT [1, 2, 3]).take 2)
+      = ([[1, 2, 3]], .eof) ∧
+    decodeAllOld cfgT .group
+        (frames cfgT [[1, 2, 3]] ++ ((frame cfgT [1, 2, 3]).take 2 ++ frames cfgT [[9]]))
+      = ([[1, 2, 3]], .corrupt) ∧
+    decodeAll cfgT .group
+        (frames cfgT [[1, 2, 3]] ++ ((frame cfgT [1, 2, 3]).take 2 ++ frames cfgT [[9]]))
+      = ([[1, 2, 3]], .corrupt) ∧
+    (repair cfgT (frames cfgT [[1, 2, 3]] ++ ((frame cfgT [1, 2, 3]).take 2 ++ frames cfgT [[9]]))).1
+      = frames cfgT [[1, 2, 3]] ∧
+    decodeAll cfgT .group (frames cfgT [[1, 2, 3]] ++ (frame cfgT [1, 2, 3]).take 2)
+      = ([[1, 2, 3]], .corrupt) ∧
+    decodeAll cfgT .group
+        ((repair cfgT (frames cfgT [[1, 2, 3]] ++ (frame cfgT [1, 2, 3]).take 2)).1 ++ frames cfgT [[9]])
+      = ([[1, 2, 3], [9]], .eof) := by
+  have hv : ∀ d ∈ ([[1, 2, 3]] : List Bytes), Valid cfgT d := by
+    intro d hd; exact cfgT_valid d (by simp at hd; subst hd; simp)
+  have hv9 : ∀ d ∈ ([[9]] : List Bytes), Valid cfgT d := by
+    intro d hd; exact cfgT_valid d (by simp at hd; subst hd; simp)
+  have hmax : cfgT.max < 4294967296 := by decide
+  have hcanon : ∀ p, cfgT.parse p ≠ none → cfgT.reser p = p := by intro p _; rfl
+  have hempty : cfgT.parse [] = none := by decide
+  have tail : ∀ k, decodeAll cfgT k ((frame cfgT [1, 2, 3]).take 2 ++ frames cfgT [[9]]) = ([], .corrupt) := by
+    intro k
+    cases k with
+    | group =>
+      obtain ⟨x, hx⟩ := Res.of_isCorrupt
+        (r := decode cfgT .group ((frame cfgT [1, 2, 3]).take 2 ++ frames cfgT [[9]])) (by decide +kernel)
+      exact decodeAll_corrupt _ _ _ x hx
+    | file =>
+      obtain ⟨x, hx⟩ := Res.of_isCorrupt
+        (r := decode cfgT .file ((frame cfgT [1, 2, 3]).take 2 ++ frames cfgT [[9]])) (by decide +kernel)
+      exact decodeAll_corrupt _ _ _ x hx
+    | bytes =>
+      obtain ⟨x, hx⟩ := Res.of_isCorrupt
+        (r := decode cfgT .bytes ((frame cfgT [1, 2, 3]).take 2 ++ frames cfgT [[9]])) (by decide +kernel)
+      exact decodeAll_corrupt _ _ _ x hx
+  have hfne : (frame cfgT [1, 2, 3]).take 2 ≠ [] := by simp [frame, be32]
+  have hfile : (decodeAll cfgT .file (frames cfgT [[1, 2, 3]] ++ (frame cfgT [1, 2, 3]).take 2)).1
+      = [[1, 2, 3]] := by
+    obtain ⟨r, hr⟩ := decode_torn_header cfgT .file ((frame cfgT [1, 2, 3]).take 2) hempty hfne
+      (by simp [frame, be32])
+    rw [garbage_tail cfgT .file _ _ hmax hv, decodeAll_corrupt _ _ _ r hr]
+    rfl
+  refine ⟨by decide +kernel, by decide +kernel, ?_, ?_, ?_, ?_⟩
+  · rw [garbage_tail cfgT .group _ _ hmax hv, tail]; rfl
+  · have hr := (repair_longest_prefix cfgT .file
+      (frames cfgT [[1, 2, 3]] ++ ((frame cfgT [1, 2, 3]).take 2 ++ frames cfgT [[9]])) hmax
+      hcanon hempty).1
+    rw [hr, garbage_tail cfgT .file _ _ hmax hv, tail]
+    simp
+  · rw [decodeAll_frames cfgT .group _ _ hmax hv,
+      decodeAll_torn_group_corrupt cfgT [1, 2, 3] _ ((frame cfgT [1, 2, 3]).drop 2) (by decide)
+        (List.take_append_drop 2 _) hfne (by simp [frame, be32])]
+    rfl
+  · rw [append_after_repair_readable cfgT .group _ [[9]] hmax hcanon hempty hv9, hfile]
+    rfl
+
 end KV.Wal
